@@ -41,6 +41,8 @@ def _mk(cls, **kw):
     if cls == 0:
         return Scalar(5, **kw)
     if cls == 1:
+        if kw.pop("_empty", False):
+            return Vector([], kw.pop("units", ""), value_type=int, **kw) if "units" in kw else Vector([], value_type=int, **kw)
         return Vector([1, 2], **kw)
     if cls == 2:
         return XYData(np.array([1.0]), np.array([2.0]), **kw)
@@ -106,6 +108,8 @@ def run_impl(c):
             kw["extended_properties"] = {KEYS[c["key"]]: _pv(c["ext"])}
         if cls >= 3:
             return {"exc": "OtherError"}
+        if c.get("empty") and cls == 1:
+            kw["_empty"] = True      # Vector([], units, value_type=int): the same rules as for a vector with items
         return vf.try_impl(lambda: _enc(getattr(_mk(cls, **kw), name)))
     if k == "cmp":
         from nitypes.scalar import Scalar
@@ -155,6 +159,10 @@ def run_impl(c):
                 # different lengths (never equal): one element against its repetition, empty against one, 2 against 3
                 n1, n2 = {"rep": (1, 3), "empty": (0, 1), "23": (2, 3), "rep_r": (3, 1)}[shape]
                 x1, y1, x2, y2 = np.full(n1, 1.0), np.full(n1, 3.0), np.full(n2, 1.0), np.full(n2, 3.0)
+            if c.get("dt2"):
+                # equal values held in another dtype are equal values
+                x1, y1 = x1.astype("int32"), y1.astype("int32")
+                x2, y2 = (x1 if c["sx"] else x1 + 1).astype(c["dt2"]), (y1 if c["sy"] else y1 + 1).astype(c["dt2"])
             if c.get("nan"):
                 # an axis holding NaN is not equal to anything by value - not even to the very same array object
                 x1 = np.array([1.0, float("nan")]); y1 = np.array([3.0, 4.0])
@@ -296,6 +304,8 @@ def gen_cases(rng, tier):
             for units in list(range(len(STRS))) + (["int", "none"] if cls != 2 else []):
                 for ext in [None] + list(range(len(STRS))):
                     cases.append({"k": "ctor", "cls": cls, "key": key, "units": units, "ext": ext})
+                    if cls == 1:
+                        cases.append({"k": "ctor", "cls": cls, "key": key, "units": units, "ext": ext, "empty": True})
     nums = [["b", True], ["b", False], ["i", 0], ["i", 1], ["i", -1], ["i", 2], ["i", 10**20], ["i", 10**20 + 1], ["i", -(2**63)], ["i", 2**53 + 1],
             ["f", (0.0).hex()], ["f", (-0.0).hex()], ["f", (1.0).hex()], ["f", (0.5).hex()], ["f", (1e20).hex()], ["f", (2.0**53).hex()], ["f", (-1.5).hex()],
             ["f", "inf"], ["f", "-inf"], ["f", "nan"], ["f", (5e-324).hex()]]
@@ -321,6 +331,9 @@ def gen_cases(rng, tier):
                       "via": rng.choice(["ctor", "ctor", "factory_copy", "factory_nocopy"])})
     for m in range(16):
         cases.append({"k": "xyeq", "sx": bool(m & 1), "sy": bool(m & 2), "sxu": bool(m & 4), "syu": bool(m & 8)})
+    for dt2 in ("float64", "int64", "uint8", "float32", ">i4"):
+        for m in (15, 14, 7):
+            cases.append({"k": "xyeq", "sx": bool(m & 1), "sy": bool(m & 2), "sxu": bool(m & 4), "syu": bool(m & 8), "dt2": dt2})
     for nan in ("shared", "copy", "self"):
         cases.append({"k": "xyeq", "sx": False, "sy": True, "sxu": True, "syu": True, "nan": nan})
     for shape in ("rep", "empty", "23", "rep_r"):
